@@ -89,6 +89,37 @@ def qs_text(ref_qs):
     return ";".join(out)
 
 
+LONG = [b"a" * 63, b"b" * 63, b"c" * 63, b"d" * 61]          # a 255-byte name
+
+
+def expanded_size(buf: bytes):
+    """length of the message re-encoded WITHOUT compression (what DNSMessage.packed writes), computed with the independent
+    decoder: header + per question (expanded name + 4) + per record (expanded name + 10 + canonical data); None = unreadable"""
+    try:
+        s = D.ref_decode(buf)
+    except D.RefError:
+        return None
+    _, qs, an, ns, ar = s.split(" ")
+    n = 12
+    if qs != "-":
+        for q in qs.split(";"): n += len(unhx(q.split(":")[0])) + 4
+    for sec in (an, ns, ar):
+        if sec != "-":
+            for r in sec.split(";"):
+                f = r.split(":"); n += len(unhx(f[0])) + 10 + len(unhx(f[4]))
+    return n
+
+
+def mk_expanding(id_, n, reply=False) -> bytes:
+    """a small message that expands: one question with a 255-byte name, then `n` more questions (query) resp. `n` A records
+    (reply) whose names are a 2-byte pointer to it"""
+    q0 = D.wire_name(LONG) + struct.pack("!HH", 1, 1)
+    if reply:
+        rr = b"\xc0\x0c" + struct.pack("!HHIH", 1, 1, 60, 4) + bytes([192, 0, 2, 1])
+        return struct.pack("!HHHHHH", id_, 0x8180, 1, n, 0, 0) + q0 + rr * n
+    return struct.pack("!HHHHHH", id_, 0x0100, n + 1, 0, 0, 0) + q0 + (b"\xc0\x0c" + struct.pack("!HH", 1, 1)) * n
+
+
 class Check(PropertyCheck):
     prop = "C27"
     design_ref = "§5 C27"
@@ -121,13 +152,24 @@ class Check(PropertyCheck):
                   "`crashed` alternative), `async_equals_sequential`/`async_quiescent`/`async_reply_answers_query`/"
                   "`async_flow_has_query` (transcription of Layer.handle_event/__process/__continue: for EVERY schedule of arrivals "
                   "and hook completions, emitted + owed = the sequential run; tied per arrival / per completion to the real Layer "
-                  "with every dns hook deferred), `buffered_server_segment_commutes`/`split_frame_around_query` (an upstream segment that completes no frame "
+                  "with every dns hook deferred), `reply_provenance` / `unmodified_reply_answers_query` / `response_hook_provenance` (round 6, per MESSAGE: every reply is the SERVFAIL of the query being handled, or the response set by a `.respond` action consumed at a hook of THIS handling, or the "
+                  "upstream message being handled, unchanged, which has id and question section of the stored query — the script-wide "
+                  "disjunct `m in addonMsgs acts` of reply_answers_query / flow_has_query, which admitted seed c27-4's stale-response shape, "
+                  "is no longer the strongest statement), `layer_raises_only_on_unencodable` (an exception leaves the layer only when a "
+                  "message to be sent does not `Fit`: packed raises, or over TCP the encoding exceeds 65535 bytes), "
+                  "`error_hook_then_servfail_udp`, `layer_never_raises_udp`, `buffered_server_segment_commutes`/`split_frame_around_query` (an upstream segment that completes no frame "
                   "commutes with the following client segment; a frame split around a client query = delivered whole after it). "
                   "The model is tied differentially to the real DNSLayer driven through harness/common/world.py.")
     level_note = ("trusted: Lean kernel; hand-written model tied differentially (per event: every dns hook with the flow's "
                   "request/response/error as the addon sees them, bytes sent to client and server, connect attempts and results, "
                   "closes, exceptions). The idna codec is a model parameter instantiated per case from the real codec. Client "
-                  "and server use the same transport. Addons are modelled by four actions per hook; they do not replace "
+                  "and server use the same transport. Round 6: pack_message's struct.error for encodings longer than 65535 bytes over TCP is now an "
+                  "explicit outcome of the model (`wireOf?`; before, `frame` wrapped the length silently): `error_hook_then_servfail` gained "
+                  "the second outcome (exception when the SERVFAIL does not fit), `layer_never_raises` and `bad_length_closes*_history` "
+                  "gained the hypothesis `DFits False c` (TCP: decoded messages re-encode within 65535 bytes; nothing over UDP) — the "
+                  "former statements were true of the model for a wrong reason. The real code does raise there: finding F-C27e (same "
+                  "root as F-C26b; code unchanged), generator kind `_oversize_cases` (just below / above the limit, query and reply, "
+                  "TCP and UDP), classifier pinned by known_selftest. Addons are modelled by four actions per hook; they do not replace "
                   "flow.request. The pause-and-queue mechanism of Layer.handle_event is modelled (Model/C27_Async.lean) with the "
                   "suspended generator represented by the output it will still emit, cut after every hook (faithful because a paused "
                   "layer's state is touched by nobody else); OpenConnection is answered synchronously by the world, so only hooks "
@@ -184,6 +226,18 @@ class Check(PropertyCheck):
     def setup(self, tier):
         self._last = None
         self.known_selftest()
+
+    def known(self, case, obs, failure):
+        """F-C27e exactly: the failure is the exception clause, over TCP, the exception is struct.error, and a message of the
+        crashing event's direction delivered up to that event re-encodes (independent computation) to more than 65535 bytes"""
+        mo = _re.match(r"event (\d+): an exception left the layer \(\[.*'crash:error'.*\]\)$", failure)
+        if not mo or case["transport"] != "tcp": return None
+        ei = int(mo.group(1))
+        if ei >= len(case["events"]) or len(case["events"][ei]) != 2: return None
+        d = case["events"][ei][0]
+        stream = b"".join(unhx(e[1]) for i, e in enumerate(case["events"][:ei + 1]) if e[0] == d and len(e) == 2 and obs["delivered"][i])
+        sizes = [expanded_size(f[1]) for f in walk_frames(stream) if f[0] == "msg"]
+        return "F-C27e" if any(n is not None and n > 65535 for n in sizes) else None
 
     def known_selftest(self):
         """the oracle's lenient branches (L1–L6) are as narrow as stated: doctored observations just outside each must be
@@ -251,6 +305,21 @@ class Check(PropertyCheck):
              ob([[f"hook dns_request {rq(1, A)} none 0", "open ok", "send server " + hx(q1)],
                  [f"hook dns_response none {rs(77, A)} 0", "send client " + hx(mk_reply(77, A))]]), "without request"),
         ]
+        # classifier of F-C27e: positive witness and near misses (other transport, size just below, other exception, other clause)
+        big, small = mk_expanding(3, 252), mk_expanding(3, 251)
+        crash = lambda note: {"given": [["hook dns_request x none 0", "open ok", "crash"]], "delivered": [True], "notes": [note], "variants": {}, "acts_at": [["p"]]}
+        msg = lambda note: f"event 0: an exception left the layer (['{note}'])"
+        for case, obs, failure, want in [
+                (tcp([["c", hx(frame(big))]]), crash("crash:error"), msg("crash:error"), "F-C27e"),
+                (udp([["c", hx(big)]]), crash("crash:error"), msg("crash:error"), None),
+                (tcp([["c", hx(frame(small))]]), crash("crash:error"), msg("crash:error"), None),
+                (tcp([["c", hx(frame(big))]]), crash("crash:ValueError"), msg("crash:ValueError"), None),
+                (tcp([["c", hx(frame(big))]]), crash("crash:error"), "event 0: dns_error is not followed by a reply to the client", None),
+                (tcp([["c", hx(frame(big))], ["c", hx(frame(q1))]]), {**crash("crash:error"), "delivered": [False, True]},
+                 "event 1: an exception left the layer (['crash:error'])", None)]:
+            got = self.known(case, obs, failure)
+            assert got == want, f"known_selftest: {failure!r} classified {got}, expected {want}"
+        assert expanded_size(big) == 65539 and expanded_size(small) == 65280
         for name, case, obs, want in tests:
             got = self.oracle(case, obs)
             if want is None:
@@ -456,8 +525,25 @@ class Check(PropertyCheck):
         return {"transport": tr, "upstream": up, "events": self._segment(rng, tr, evs) if rng.chance(0.5) else
                 [[k, hx(frame(b) if tr == "tcp" else b)] for k, b in evs], "acts": acts, "conns": conns}
 
+    def _oversize_cases(self, rng=None):
+        """TCP/UDP messages whose uncompressed re-encoding is just below / just above the 65535 bytes of the TCP length prefix
+        (F-C27e): a query forwarded upstream, a reply forwarded to the client"""
+        pick = (lambda s: s[0]) if rng is None else rng.pick
+        for tr in ("tcp", "udp"):
+            w = (lambda b: hx(frame(b))) if tr == "tcp" else hx
+            for n in ((251, 252) if rng is None else (pick([200, 250, 251]), pick([252, 253, 300]))):
+                # query: 12 + (n + 1) * 259 bytes expanded
+                yield {"transport": tr, "upstream": True, "conns": "", "acts": [],
+                       "events": [["c", w(mk_expanding(3, n))], ["c", w(mk_query(4, [b"a", b"com"]))]]}
+            for n in ((242, 243) if rng is None else (pick([100, 242]), pick([243, 300]))):
+                # reply: 12 + 259 + n * 269 bytes expanded
+                yield {"transport": tr, "upstream": True, "conns": "", "acts": [],
+                       "events": [["c", w(mk_query(3, LONG))], ["s", w(mk_expanding(3, n, reply=True))], ["c", w(mk_query(4, [b"a", b"com"]))]]}
+
     def generate(self, rng, tier):
         for c in self._split_cases(None):
+            yield c
+        for c in self._oversize_cases(None):
             yield c
         for c in self._multiq_cases(rng):
             yield c
@@ -468,6 +554,8 @@ class Check(PropertyCheck):
         while True:
             if rng.chance(0.10):
                 yield self._reuse_case(rng)
+            elif rng.chance(0.01):
+                yield rng.pick(list(self._oversize_cases(rng)))
             elif rng.chance(0.07):
                 yield self._stray_case(rng)
             elif rng.chance(0.08):
